@@ -1,8 +1,17 @@
 package main
 
 import (
+	"os"
+
 	"verif/c16"
 	"verif/core"
 )
 
-func main() { core.Main("C16", "model_checking", c16.Run) }
+func main() {
+	// confirm mode: re-run ONE suspect render alone (the parent enforces the deadline)
+	if p := os.Getenv("VERIF_CONFIRM"); p != "" {
+		c16.ConfirmMain(p, nil)
+		return
+	}
+	core.Main("C16", "model_checking", c16.Run)
+}
